@@ -526,6 +526,8 @@ def features(S):
                 f.add("nr:" + x["k"])
             if rt.get("jockey"):
                 f.add("jockey")
+    if any(d == "LINGER" for d in (S.get("disc") or [])):
+        f.add("disc:custom-lingering")
     for name in ("batch", "ren", "ccm", "cct", "baulk", "disc", "spf", "tracker", "detector", "exact"):
         if S.get(name):
             f.add(name)
